@@ -142,22 +142,36 @@ Remove(s, remover, removed) ==
     ELSE Ok([s EXCEPT ![removed] = [@ EXCEPT !.mc = @ + 1, !.ac = 0]])
 
 \* state.rs:286-326
+ModifyAllowed(s, modifier, modified) ==
+    /\ ActorIsActiveManager(s, modifier)
+    /\ modified \in DOMAIN s                                               \* else UnrecognisedMember
+    /\ IsMember(s[modified])                                               \* else InactiveMember
+
 Modify(s, modifier, modified, access) ==
-    IF ~ActorIsActiveManager(s, modifier) THEN Err(s)
-    ELSE IF modified \notin DOMAIN s THEN Err(s)                           \* UnrecognisedMember
-    ELSE IF ~IsMember(s[modified]) THEN Err(s)                             \* InactiveMember
+    IF ~ModifyAllowed(s, modifier, modified) THEN Err(s)
     ELSE IF s[modified].acc = access THEN Ok(s)
     ELSE Ok([s EXCEPT ![modified] = [@ EXCEPT !.acc = access, !.ac = @ + 1]])
 
-\* state.rs:337-356: NOTE no actor check at all when the target already is a manager
+(* promote / demote return the state unchanged when the target already has  *)
+(* Manage / Pull access.  Until the fix commit that shortcut was taken     *)
+(* BEFORE any check of the actor or of the target's membership             *)
+(* (Defect_NoopModifyUnchecked = TRUE): anybody's promote of a manager and *)
+(* anybody's demote of a puller was accepted.  Repaired code: the checks   *)
+(* of `modify` apply to the shortcut as well.                              *)
+CONSTANT Defect_NoopModifyUnchecked
+
+Shortcut(s, actor, target) ==
+    IF Defect_NoopModifyUnchecked \/ ModifyAllowed(s, actor, target) THEN Ok(s) ELSE Err(s)
+
+\* state.rs:337-356
 Promote(s, promoter, promoted, access) ==
     IF promoted \notin DOMAIN s THEN Err(s)
-    ELSE IF IsManager(s[promoted]) THEN Ok(s)
+    ELSE IF IsManager(s[promoted]) THEN Shortcut(s, promoter, promoted)
     ELSE Modify(s, promoter, promoted, access)
 
-\* state.rs:367-386: NOTE no actor check at all when the target already is a puller
+\* state.rs:367-386
 Demote(s, demoter, demoted, access) ==
     IF demoted \notin DOMAIN s THEN Err(s)
-    ELSE IF IsPuller(s[demoted]) THEN Ok(s)
+    ELSE IF IsPuller(s[demoted]) THEN Shortcut(s, demoter, demoted)
     ELSE Modify(s, demoter, demoted, access)
 ===========================================================================
